@@ -18,7 +18,8 @@ What is modelled (quirks included, this is the code as it is — not what it sho
 * the aggregation runs first and writes the rows; only then record+advance runs in ONE SQLite
   transaction; if that transaction fails the error is only logged: rows stay, response is
   "completed", nothing is recorded and the cursor does not move;
-* a failed aggregation records a `failed` execution and leaves the cursor alone;
+* a failed aggregation — the query fails, or the query returned rows and the destination write
+  rejects them — records a `failed` execution, writes nothing and leaves the cursor alone;
 * `handleUpdate` rewrites the definition (incl. `is_active`, `interval`, `query`) and never touches
   the cursor; the scheduler has a job iff the query is active and its interval parses (create /
   ReloadCQ / Start after a restart);
@@ -40,10 +41,10 @@ def floorSec (ns : Int) : Int := ns / nsPerSec
 /-- `t.Truncate(time.Second).UnixMicro()`: the whole second of `t`, in µs. -/
 def secLabelUs (ns : Int) : Int := floorSec ns * 1000000
 
-inductive Fault | none | agg | recIns | recUpd
+inductive Fault | none | agg | recIns | recUpd | wr
 deriving Repr, DecidableEq
 
-inductive QKind | plain | grouped | broken
+inductive QKind | plain | grouped | broken | badtime
 deriving Repr, DecidableEq
 
 /-- a `start_time` / `end_time` request field -/
@@ -139,6 +140,12 @@ def aggRows (st : State) (s e : Int) : List (Nat × Nat) :=
 
 def recFails (f : Fault) : Bool := f == .recIns || f == .recUpd
 
+/-- the destination write (`arrowBuffer.WriteColumnarRecord`) rejects the rows: injected fault, or a
+    query whose `time` output is a non-RFC3339 string. Only attempted when the aggregation returned
+    rows (`len(records) == 0` returns before the write). -/
+def writeFails (st : State) (f : Fault) (rows : List (Nat × Nat)) : Bool :=
+  (f == .wr || st.q == .badtime) && !rows.isEmpty
+
 /-- everything after the window has been chosen (shared by ExecuteCQ and handleExecute). -/
 def execWindow (st : State) (kind : Kind) (explicit : Bool) (startNs endNs : Int) (dry : Bool) (f : Fault) :
     State × Event :=
@@ -152,6 +159,9 @@ def execWindow (st : State) (kind : Kind) (explicit : Bool) (startNs endNs : Int
       ({ st with nFailed := st.nFailed + 1 }, { ev with status := .aggfailed, win := some w })
     else
       let rows := aggRows st w.1 w.2
+      if writeFails st f rows then
+        ({ st with nFailed := st.nFailed + 1 }, { ev with status := .aggfailed, win := some w })
+      else
       let label := if rows.isEmpty then none else some (secLabelUs startNs)
       if recFails f then
         (st, { ev with status := .recfailed, win := some w, rows := rows, label := label })
